@@ -419,17 +419,17 @@ class Verdicts:
   def __init__(self, ck, pid):
     self.ck, self.pid = ck, pid
 
-  def signature(self, job, kind, extra=None):
+  def signature(self, job, kind, extra=None, outside=False):
     d = job.d
     sig = {'finding': d.get('finding', 'none')}
-    if d.get('finding') and kind not in d.get('expect', ()):
-      sig = {'finding': 'unexpected-in-' + d['finding'], 'kind': kind}
+    if d.get('finding') and (outside or kind not in d.get('expect', ())):
+      sig = {'finding': ('outside-the-scope-of-' if outside else 'unexpected-in-') + d['finding'], 'kind': kind}
     if d.get('variant'): sig['variant'] = d['variant']
     if extra: sig.update(extra)
     return sig
 
-  def report(self, job, kind, detail, extra=None):
-    self.ck.violation(kind, self.signature(job, kind, extra), job.case, detail)
+  def report(self, job, kind, detail, extra=None, outside=False):
+    self.ck.violation(kind, self.signature(job, kind, extra, outside), job.case, detail)
 
 # ---------------------------------------------------------------------------------------------
 # independent restatement for loops: the SV for-header, read with 32-bit unsigned arithmetic, must
@@ -592,12 +592,24 @@ def run_batch(ck, be, designs, stats, ncycles, nstores, tie=True, keep=False):
         ck.disagreement('Flat.flatPorts≈YosysStructuralTranslatorL2.vec_conn_gen', {'label': d['label'], 'backend': be, 'src': d['src']},
                         'Model/Flat.lean: ' + str(fs[0]['model']), 'emitted: ' + str(fs[0]['emitted']) + ' for leaf ' + fs[0]['leaf'])
       else: stats['flat_slices_checked'] = stats.get('flat_slices_checked', 0) + sum(1 for p in j.ports if p.ty[0] == 'struct')
-    if r.multi:
+    # a labelled design may name the signals its finding is about ('scope': name prefixes of the emitted text); a
+    # multi-driven / undriven / mismatching variable outside that scope is not part of the known finding
+    scope = tuple(d.get('scope', ())) if d.get('finding') else ()
+    inside = lambda name: not scope or any(str(name).lstrip('.').startswith(p) for p in scope)
+    multi_out = [x for x in r.multi if not inside(x[0])]
+    undr_out = [x for x in r.undriven if not inside(x)]
+    if multi_out:
       found = True
-      V.report(j, 'multi-driver', {'what': 'a variable bit is written by two processes', 'conflicts': [list(x) for x in r.multi[:10]]})
-    if r.undriven:
+      V.report(j, 'multi-driver', {'what': 'a variable bit is written by two processes', 'conflicts': [list(x) for x in multi_out[:10]]}, outside=True)
+    if undr_out:
       found = True
-      V.report(j, 'undriven', {'what': 'a variable that is read (or is an output) has bits no process drives', 'variables': r.undriven[:10]})
+      V.report(j, 'undriven', {'what': 'a variable that is read (or is an output) has bits no process drives', 'variables': undr_out[:10]}, outside=True)
+    if len(multi_out) < len(r.multi):
+      found = True
+      V.report(j, 'multi-driver', {'what': 'a variable bit is written by two processes', 'conflicts': [list(x) for x in r.multi if inside(x[0])][:10]})
+    if len(undr_out) < len(r.undriven):
+      found = True
+      V.report(j, 'undriven', {'what': 'a variable that is read (or is an output) has bits no process drives', 'variables': [x for x in r.undriven if inside(x)][:10]})
     if r.status == 'fuel' or (j.top2 is not None and loop_header_mismatches(j)):
       found = True
       lm = loop_header_mismatches(j)
@@ -612,10 +624,12 @@ def run_batch(ck, be, designs, stats, ncycles, nstores, tie=True, keep=False):
       V.report(j, 'cast-reading-dependent', {'what': "the two admissible readings of the size cast N'(e) give different outputs on this design"})
     if j.pytrace is not None and r.status == 'trace':
       bad = compare_traces(j, r)
-      if bad:
-        found = True
-        V.report(j, 'output-mismatch', {'what': 'output port differs between the PyMTL simulation and the emitted text under IEEE 1800 two-state semantics',
-                                        'first': bad[:3], 'n_mismatches': len(bad)})
+      bad_out = [b for b in bad if not inside(b['port'])]
+      for part, outside in ((bad_out, True), ([b for b in bad if inside(b['port'])], False)):
+        if part:
+          found = True
+          V.report(j, 'output-mismatch', {'what': 'output port differs between the PyMTL simulation and the emitted text under IEEE 1800 two-state semantics',
+                                          'first': part[:3], 'n_mismatches': len(part)}, outside=outside)
     # semantic tie with the model of the translator
     for m, rep in j.blk:
       stats['blocks_tied'] = stats.get('blocks_tied', 0) + 1
